@@ -10,6 +10,16 @@ Tie of the Lean schema interpreter (NxModel/Nex/Schema.lean, theorems in NxProps
     interpreter's, and what the real code decodes must equal the interpreter's visible value.
 The property *is* "equals an independent interpreter of the definition", so a difference on a well-formed value is
 reported as a violation with that value as the replay.
+
+The definition as the independent reader reads it is the authority. When the repository's reader disagrees with it
+(e.g. the generator's model of a structure body was changed and the modules regenerated), that alone is only a broken
+tie; the check goes on to compare the checked-in generated classes with the definition, spends extra values on the
+items the two readings differ on (harness/schema_c13_focus.py), and reports the concrete structure, configuration and
+value (shrunk to the attributes that matter) whose bytes differ. Only when the generated code agrees with the
+definition on everything explored does the disagreement end as `no-failing-input-found`.
+Besides the random boundary values every (item, configuration) gets one *marker* value: every attribute at every
+depth set, non-default and distinguishable from its neighbours, so swapped / dropped / wrongly gated attributes always
+change the bytes.
 """
 import concurrent.futures, multiprocessing, os, time
 import vf
@@ -64,8 +74,10 @@ def run(ctx):
     protodir = os.path.join(repo, "nintendo/files/proto")
     exe = ctx.driver().exe
     ctx.rule = ("every structure class and every method of every generated module (programs), each under nex.version in {0, every gate value, gate-1, 99999} "
-                "x struct header off/on x pid size 4/8, with %s schema-directed value(s) per (item, configuration) (boundary ints of the declared width, "
-                "None/empty/multi-byte strings, empty and nested lists/maps, every variant tag and every registered DataHolder payload in rotation): "
+                "x struct header off/on x pid size 4/8, with %s schema-directed random value(s) per (item, configuration) (boundary ints of the declared width, "
+                "None/empty/multi-byte strings, empty and nested lists/maps, every variant tag and every registered DataHolder payload in rotation) "
+                "plus one marker value (every attribute at every depth set, non-default, distinguishable from its neighbours); items on which the "
+                "repository's reader of the definition disagrees with the independent reader get 6 (thorough: 12) more values: "
                 "real bytes (Structure.encode; generated client -> fake RMC client -> generated server with a recording implementation) vs the compiled Lean "
                 "interpreter of the translated definition, and real decode vs the interpreter's visible value; plus truncations and required-None encodings. "
                 "distinct non-trivial = distinct (module, item, configuration, repetition) cases that agreed" % ("1" if quick else "6"))
@@ -155,7 +167,7 @@ def run(ctx):
                                "shrunk" not in d, d.get("cfg") or []))
     reported = 0
     queues = [per_mod[n] for n in sorted(per_mod, key=lambda n: (n not in reader_problem, n))]
-    seen_items = set()
+    seen_items, noted = set(), set()
     while reported < 25 and any(queues):
         for q in queues:
             while q:
@@ -165,9 +177,10 @@ def run(ctx):
                 seen_items.add((d.get("module"), item))
                 d.pop("_focus", None)
                 what = "%s [%s %s cfg=%s]" % (d["what"], d.get("module"), item, d.get("cfg"))
-                if "two_readings_of_the_definition" in d:
-                    what += "; the repository's generator reads %s.proto differently from its text (%s) and the checked-in generated code does not follow the definition" % (
-                        d["module"], "; ".join(focus[d["module"]]["notes"][:2])[:400])
+                if "two_readings_of_the_definition" in d and d["module"] not in noted:
+                    noted.add(d["module"])
+                    what += "; the checked-in generated code does not follow the text of %s.proto, which the repository's own reader no longer reads as written (%s)" % (
+                        d["module"], "; ".join(focus[d["module"]]["notes"][:2])[:500])
                 ctx.violation("layout:%s:%s" % (d.get("module"), item), what,
                               dict(d, how="harness/schema_tie.py: build the value with the generated classes of nintendo.nex.<module> under (nex.version, struct_header, pid_size)=cfg and compare with `nxdrv_C13` fed with the definition (tools/schema_proto2lean.py driver_lines); 'shrunk' is the same difference on a value with every other attribute reset to zero"))
                 reported += 1
